@@ -6,7 +6,8 @@ Helper lemmas for C02, Part A: the integer index helpers of `OW/Nd/Ints.lean`
 (`product`, `offsets`, `idivmod`, `increment`, `multiply`, `dotProduct`, `maximum`, `argmax`)
 and the mixed-radix bijection `ravel`/`unravel`.
 -/
-namespace OW.Nd
+namespace OW.NdC02
+open OW.Nd
 
 /-! ### product -/
 
@@ -15,13 +16,13 @@ theorem foldl_mul_eq (ix : Idx) (a : Int) : ix.foldl (· * ·) a = a * product i
   | nil => simp [product]
   | cons x xs ih => simp only [List.foldl_cons, ih, product]; ring
 
-theorem Pos.tail {x : Int} {xs : Idx} (h : Pos (x :: xs)) : Pos xs :=
+theorem pos_tail {x : Int} {xs : Idx} (h : Pos (x :: xs)) : Pos xs :=
   fun y hy => h y (List.mem_cons_of_mem _ hy)
 
-theorem Pos.head {x : Int} {xs : Idx} (h : Pos (x :: xs)) : 1 ≤ x :=
+theorem pos_head {x : Int} {xs : Idx} (h : Pos (x :: xs)) : 1 ≤ x :=
   h x (List.mem_cons_self)
 
-theorem Pos.cons {x : Int} {xs : Idx} (hx : 1 ≤ x) (h : Pos xs) : Pos (x :: xs) := by
+theorem pos_cons {x : Int} {xs : Idx} (hx : 1 ≤ x) (h : Pos xs) : Pos (x :: xs) := by
   intro y hy
   rcases List.mem_cons.mp hy with rfl | hy
   · exact hx
@@ -31,8 +32,8 @@ theorem product_pos {l : Idx} (h : Pos l) : 1 ≤ product l := by
   induction l with
   | nil => simp [product]
   | cons x xs ih =>
-    have hx := h.head
-    have hp := ih h.tail
+    have hx := (pos_head h)
+    have hp := ih (pos_tail h)
     simp only [product]
     nlinarith
 
@@ -79,7 +80,7 @@ theorem offsets_nil : offsets [] = (oob : R Idx) := rfl
 
 /-! ### ravel / unravel -/
 
-theorem InBounds.length_eq {i d : Idx} (h : InBounds i d) : i.length = d.length := by
+theorem inBounds_length {i d : Idx} (h : InBounds i d) : i.length = d.length := by
   induction i generalizing d with
   | nil => cases d with
     | nil => rfl
@@ -88,7 +89,7 @@ theorem InBounds.length_eq {i d : Idx} (h : InBounds i d) : i.length = d.length 
     | nil => exact absurd h (by simp [InBounds])
     | cons y ys => simp only [InBounds] at h; simp [ih h.2.2]
 
-theorem InBounds.pos {i d : Idx} (h : InBounds i d) : Pos d := by
+theorem inBounds_pos {i d : Idx} (h : InBounds i d) : Pos d := by
   induction i generalizing d with
   | nil => cases d with
     | nil => intro x hx; simp at hx
@@ -97,7 +98,7 @@ theorem InBounds.pos {i d : Idx} (h : InBounds i d) : Pos d := by
     | nil => exact absurd h (by simp [InBounds])
     | cons y ys =>
       simp only [InBounds] at h
-      exact Pos.cons (by omega) (ih h.2.2)
+      exact pos_cons (by omega) (ih h.2.2)
 
 theorem ravel_bounds {i d : Idx} (h : InBounds i d) : 0 ≤ ravel i d ∧ ravel i d < product d := by
   induction i generalizing d with
@@ -110,7 +111,7 @@ theorem ravel_bounds {i d : Idx} (h : InBounds i d) : 0 ≤ ravel i d ∧ ravel 
       simp only [InBounds] at h
       obtain ⟨h0, h1, h2⟩ := h
       have ⟨r0, r1⟩ := ih h2
-      have hp := product_pos h2.pos
+      have hp := product_pos (inBounds_pos h2)
       simp only [ravel, product_cons]
       constructor
       · have : 0 ≤ x * product ys := Int.mul_nonneg h0 (by omega)
@@ -129,20 +130,20 @@ theorem unravel_inBounds {d : Idx} (hd : Pos d) {k : Int} (h0 : 0 ≤ k) (h1 : k
   induction d generalizing k with
   | nil => simp [unravel, InBounds]
   | cons y ys ih =>
-    have hp := product_pos hd.tail
+    have hp := product_pos (pos_tail hd)
     simp only [unravel, InBounds]
     refine ⟨Int.ediv_nonneg h0 (by omega), ?_, ?_⟩
     · exact Int.ediv_lt_of_lt_mul (by omega) (by simpa using h1)
-    · exact ih hd.tail (Int.emod_nonneg _ (by omega)) (Int.emod_lt_of_pos _ (by omega))
+    · exact ih (pos_tail hd) (Int.emod_nonneg _ (by omega)) (Int.emod_lt_of_pos _ (by omega))
 
 theorem ravel_unravel {d : Idx} (hd : Pos d) {k : Int} (h0 : 0 ≤ k) (h1 : k < product d) :
     ravel (unravel k d) d = k := by
   induction d generalizing k with
   | nil => simp only [product_nil] at h1; simp only [unravel, ravel]; omega
   | cons y ys ih =>
-    have hp := product_pos hd.tail
+    have hp := product_pos (pos_tail hd)
     simp only [unravel, ravel]
-    rw [ih hd.tail (Int.emod_nonneg _ (by omega)) (Int.emod_lt_of_pos _ (by omega))]
+    rw [ih (pos_tail hd) (Int.emod_nonneg _ (by omega)) (Int.emod_lt_of_pos _ (by omega))]
     have := Int.mul_ediv_add_emod k (product ys)
     rw [Int.mul_comm] at this
     exact this
@@ -158,7 +159,7 @@ theorem unravel_ravel {i d : Idx} (h : InBounds i d) : unravel (ravel i d) d = i
       simp only [InBounds] at h
       obtain ⟨h0, h1, h2⟩ := h
       have ⟨r0, r1⟩ := ravel_bounds h2
-      have hp := product_pos h2.pos
+      have hp := product_pos (inBounds_pos h2)
       simp only [ravel, unravel]
       have hq : (x * product ys + ravel xs ys) / product ys = x := by
         rw [Int.mul_add_ediv_right _ _ (by omega), Int.ediv_eq_zero_of_lt r0 r1]; omega
@@ -197,11 +198,11 @@ theorem idivmod_offsetsT {d : Idx} (hd : Pos d) {k : Int} (h0 : 0 ≤ k) :
   induction d generalizing k with
   | nil => rfl
   | cons y ys ih =>
-    have hp := product_pos hd.tail
-    have hy := hd.head
+    have hp := product_pos (pos_tail hd)
+    have hy := (pos_head hd)
     rw [offsetsT_cons]
     simp only [idivmod]
-    rw [if_neg (by omega), if_neg (by omega), ih hd.tail h0]
+    rw [if_neg (by omega), if_neg (by omega), ih (pos_tail hd) h0]
     simp only [bind, Except.bind, pure, Except.pure, unravel, product_cons]
     rw [Int.tdiv_eq_ediv_of_nonneg h0,
       Int.tmod_eq_emod_of_nonneg (Int.ediv_nonneg h0 (by omega)),
@@ -271,7 +272,7 @@ theorem increment_eq {v w : Idx} (h : v.length = w.length) :
 /-- one `Increment` step on an in-bounds index: succeeds, stays in bounds, row-major rank + 1 (mod size) -/
 theorem increment_spec {v w : Idx} (h : InBounds v w) :
     ∃ v', increment v w = .ok v' ∧ InBounds v' w ∧ ravel v' w = (ravel v w + 1) % product w := by
-  refine ⟨(incCarry v w).1, increment_eq h.length_eq, ?_⟩
+  refine ⟨(incCarry v w).1, increment_eq (inBounds_length h), ?_⟩
   obtain ⟨ib, hf, ht⟩ := incCarry_spec h
   refine ⟨ib, ?_⟩
   have ⟨b0, b1⟩ := ravel_bounds ib
@@ -285,9 +286,9 @@ theorem inBounds_zeros {d : Idx} (hd : Pos d) : InBounds (uniform d.length 0) d 
   induction d with
   | nil => simp [uniform, InBounds]
   | cons y ys ih =>
-    have := hd.head
+    have := (pos_head hd)
     simp only [uniform, List.length_cons, List.replicate_succ, InBounds]
-    exact ⟨by omega, by omega, ih hd.tail⟩
+    exact ⟨by omega, by omega, ih (pos_tail hd)⟩
 
 theorem ravel_zeros (d : Idx) : ravel (uniform d.length 0) d = 0 := by
   induction d with
@@ -437,4 +438,4 @@ theorem argmaxLoop_spec (vs pre : Idx) (i mx res : Int)
         rw [List.getElem?_append_left hj'] at hx
         exact hlt j hj x hx
 
-end OW.Nd
+end OW.NdC02
